@@ -12,6 +12,7 @@ from symx.core import SReal, real, term
 from symx.runner import F, JobAcc
 
 PROPERTY = "C18"
+ABORT_IS_ERROR = ("engine",)  # an unmodelled randomness source makes the check inconclusive, never successful
 BUDGET = {"quick": 170, "thorough": 1500}
 META = {
     "explanation": "bounded symbolic execution of the real bootstrap code (generate_bootstrap_samples, generate_single_bootstrap_sample, "
@@ -150,6 +151,9 @@ def run_job(job, deadline):
                 return e
             finally:
                 DRAWS["vectors"] = None
+            if not calls:
+                # the resamples did not come from DataFrame.sample: the scripted draws were not consumed, nothing below would mean anything
+                raise core.Abort("engine", "resamples are not drawn through DataFrame.sample: randomness source not modelled (mode ii inconclusive)")
             res = {"overall": (mf.overall, mf.overall_ci), "by_group": (mf.by_group, mf.by_group_ci), "group_min": (mf.group_min(), mf.group_min_ci()),
                    "group_max": (mf.group_max(), mf.group_max_ci())}
             for meth in ("between_groups", "to_overall"):
@@ -286,6 +290,16 @@ def _seeds(acc, job, deadline):
                 acc.r["sat"] += 1
                 acc.r["cex"].append({"obligation": nm, "signature": f"seeds:{nm}", "job": job, "model": {}, "extra": {"seed": sd}})
 
+        if k < 4:
+            missing = _undrawn_rows(sd)
+            acc.r["obligations"] += 1
+            acc.r["ob_names"]["every_data_row_is_drawn_in_some_resample_real_rng"] = acc.r["ob_names"].get("every_data_row_is_drawn_in_some_resample_real_rng", 0) + 1
+            if missing:
+                acc.r["sat"] += 1
+                acc.r["cex"].append({"obligation": "rows", "signature": "seeds:rows", "job": job, "model": {}, "extra": {"seed": sd, "rows": missing}})
+            else:
+                acc.r["discharged"] += 1
+
         def run(sd=sd):
             p = [real(f"p{i}") for i in range(n)]
             mf = _frame(n, groups, None, p, real("c"), [0.05, 0.95], 6, rs=sd)
@@ -312,11 +326,22 @@ def _seeds(acc, job, deadline):
     acc.r["canaries_fired"] += 1
     # undischarged "positive width" obligations on individual paths are not failures (a path may force ties); recount
     pw = acc.r["ob_names"].get("positive_width_satisfiable", 0)
-    got = acc.r["discharged"] - 2 * (job["nseeds"] + 3) + acc.r["sat"]
+    got = acc.r["discharged"] - 2 * (job["nseeds"] + 3) - min(4, job["nseeds"] + 3) + acc.r["sat"]
     if got <= 0 and pw > 0:
         acc.r["cex"].append({"obligation": "positive_width_satisfiable", "signature": "seeds:width", "job": job, "model": {}, "extra": {}})
         acc.r["sat"] += 1
     acc.r["obligations"] = acc.r["discharged"] + acc.r["sat"] + acc.r["unknown"]
+
+
+def _undrawn_rows(sd, n=4, nb=40):
+    """real generator, `nb` resamples of n rows: the resamples are drawn from ALL n data rows, so each row i turns up in some resample
+    (an honest sampler misses a given row with probability (1-1/n)^(n*nb) < 1e-19). Row i is observed through the indicator prediction e_i."""
+    missing = []
+    for i in range(n):
+        mf = _frame(n, [0, 1] * (n // 2), None, [1.0 if r == i else 0.0 for r in range(n)], 0.5, [0.5, 1 - 1e-9], nb, rs=sd)
+        if not float(mf.overall_ci[1]["mp"]) > 0:
+            missing.append(i)
+    return missing
 
 
 # ---- replay ------------------------------------------------------------------------------------------
@@ -339,6 +364,9 @@ def replay(cex):
             widths.append(float(m.overall_ci[1]["mp"] - m.overall_ci[0]["mp"]))
         if max(widths) <= 0:
             bad.append("all intervals have zero width: resamples do not differ")
+        missing = _undrawn_rows(sd)
+        if missing:
+            bad.append(f"data row(s) {missing} of 4 never occur in any of 40 resamples (random_state={sd}): resamples are not drawn from all n rows")
         return {"reproduced": bool(bad), "detail": "; ".join(bad)}
     setup()
     n, groups, ctrl, q = job["n"], job["groups"], job["ctrl"], job["q"]
@@ -354,6 +382,8 @@ def replay(cex):
     finally:
         DRAWS["vectors"] = None
     bad = []
+    if not calls:
+        return {"reproduced": False, "detail": "resamples not drawn through DataFrame.sample (unmodelled randomness source)"}
     if not (len(calls) == len(draw) and all(cl["frac"] == 1 and cl["replace"] is True and cl["ignore_index"] is True for cl in calls)):
         bad.append(f"DataFrame.sample called as {calls}")
     cells = sorted(set((None if ctrl is None else ctrl[i], groups[i]) for i in range(n)))
